@@ -27,6 +27,8 @@ BMM_SQUARE_PROB = 0.35
 SAME_SG_NAME_PROB = 0.3
 # probability that a float CONSTANT (e.g. a weight) is also exported as a graph output
 CONST_OUTPUT_PROB = 0.0
+# probability that a graph INPUT is also returned as a graph output (passthrough)
+PASSTHROUGH_PROB = 0.08
 # value distribution of generated float constants (a check may narrow it)
 CONST_KINDS = ['normal'] * 6 + ['pos', 'neg', 'tiny', 'big', 'zero']
 
@@ -496,6 +498,8 @@ def gen_subgraph(mb, sg_index, key, n_ops, op_weights=None, want4d=None, fanout=
   if not outs:
     outs = [produced[-1][0]]
   rng.shuffle(outs)
+  if PASSTHROUGH_PROB and rng.random() < PASSTHROUGH_PROB:
+    outs.append(int(gb.g.inputs[0]))        # the model also returns one of its inputs
   if CONST_OUTPUT_PROB and gb.consts and rng.random() < CONST_OUTPUT_PROB:
     outs.append(rng.choice(gb.consts))      # a model that also returns one of its weights
   if DUPLICATE_OUTPUTS and rng.random() < DUP_PROB:
